@@ -106,6 +106,9 @@ C02f(line, pre) ==
          \cup (IF InCoolDown(pre, g) /\ Scanned(line, g) /\ \E i \in 1..Len(line.calls) : line.calls[i].op = "describe_asgs" /\ ~line.calls[i].ok
                  THEN {"C02:refresh-failed-in-cooldown"} ELSE {})
          \cup (IF "twin" \in DOMAIN line /\ ~InCoolDown(pre, g) /\ g \in DOMAIN line.twin.writes /\ line.twin.writes[g] > 0 THEN {"C02:twin-acts"} ELSE {})
+         \cup (IF (\E i \in 1..Len(line.faults) : line.faults[i].op = "slow" /\ line.faults[i].t = g)
+                  /\ \E j \in 1..Len(line.calls) : line.calls[j].op \in {"set_desired", "create_fleet"} /\ line.calls[j].g = g /\ line.calls[j].ok
+                 THEN {"C02:cloud-call-took-a-tick"} ELSE {})
         : g \in Groups(pre)}
 
 -----------------------------------------------------------------------------
